@@ -24,67 +24,70 @@ theorem le_unlimited (L : Limits) (d n : Nat) (hd : L.depth ≤ d) (hn : L.nesti
 /-- **Sentence 1.** For every template, partial pool and data: the render under a tighter configuration `L` is
 *identical* to the render under a looser one `L'` (same output, or the very same error), or it fails with a
 resource-limit error. -/
-theorem limited_identical_or_limit_error (L L' : Limits) (hle : LimLe L L') (P : Prog) (nodes : List Node) :
+theorem limited_identical_or_limit_error (L L' : Limits) (hle : LimLe L L') (P : Prog) (hlax : P.lax = false)
+    (nodes : List Node) :
     renderTemplate L P nodes = renderTemplate L' P nodes ∨
-      ∃ e, renderTemplate L P nodes = .error e ∧ e.isLimit = true := by
-  rcases agree_template hle P nodes with h | ⟨e, he, ht⟩
+      ∃ e w, renderTemplate L P nodes = .error (e, w) ∧ e.isLimit = true := by
+  rcases agree_template hle P hlax nodes with h | ⟨e, w, he, ht⟩
   · exact Or.inl h
-  · exact Or.inr ⟨e, he, ht.isLimit⟩
+  · exact Or.inr ⟨e, w, he, ht.isLimit⟩
 
 /-- Sentence 1 with the unlimited render on the right-hand side. -/
-theorem limits_only_abort_or_identical (L : Limits) (P : Prog) (nodes : List Node) (d n : Nat)
+theorem limits_only_abort_or_identical (L : Limits) (P : Prog) (hlax : P.lax = false) (nodes : List Node) (d n : Nat)
     (hd : L.depth ≤ d) (hn : L.nesting ≤ n) :
     renderTemplate L P nodes = renderTemplate (unlimited d n) P nodes ∨
-      ∃ e, renderTemplate L P nodes = .error e ∧ e.isLimit = true :=
-  limited_identical_or_limit_error L _ (le_unlimited L d n hd hn) P nodes
+      ∃ e w, renderTemplate L P nodes = .error (e, w) ∧ e.isLimit = true :=
+  limited_identical_or_limit_error L _ (le_unlimited L d n hd hn) P hlax nodes
 
 /-- the error a tighter configuration adds belongs to a limit on which the two configurations differ -/
-theorem added_error_is_of_a_changed_limit (L L' : Limits) (hle : LimLe L L') (P : Prog) (nodes : List Node) (e : Err)
-    (h : renderTemplate L P nodes = .error e) (hne : renderTemplate L' P nodes ≠ .error e) : Tight L L' e := by
-  rcases agree_template hle P nodes with h' | ⟨e', he, ht⟩
+theorem added_error_is_of_a_changed_limit (L L' : Limits) (hle : LimLe L L') (P : Prog) (hlax : P.lax = false)
+    (nodes : List Node) (e : Err) (w : W)
+    (h : renderTemplate L P nodes = .error (e, w)) (hne : renderTemplate L' P nodes ≠ .error (e, w)) : Tight L L' e := by
+  rcases agree_template hle P hlax nodes with h' | ⟨e', w', he, ht⟩
   · rw [h] at h'; exact absurd h'.symm hne
   · rw [h] at he; cases he; exact ht
 
 /-- **Sentence 2 (monotonicity), all five limits at once.** A render that succeeds under `L` succeeds with the same
 final state — in particular the same output — under every configuration that is at least as loose. -/
-theorem limits_monotone (L L' : Limits) (hle : LimLe L L') (P : Prog) (nodes : List Node) (w : W)
+theorem limits_monotone (L L' : Limits) (hle : LimLe L L') (P : Prog) (hlax : P.lax = false) (nodes : List Node) (w : W)
     (h : renderTemplate L P nodes = .ok w) : renderTemplate L' P nodes = .ok w := by
-  rcases agree_template hle P nodes with h' | ⟨e, he, _⟩
+  rcases agree_template hle P hlax nodes with h' | ⟨e, w', he, _⟩
   · rw [← h']; exact h
   · rw [h] at he; cases he
 
 /-- the limited render, when it completes, is the unlimited render -/
-theorem limits_only_abort (L : Limits) (P : Prog) (nodes : List Node) (w : W) (d n : Nat)
+theorem limits_only_abort (L : Limits) (P : Prog) (hlax : P.lax = false) (nodes : List Node) (w : W) (d n : Nat)
     (hd : L.depth ≤ d) (hn : L.nesting ≤ n) (h : renderTemplate L P nodes = .ok w) :
     renderTemplate (unlimited d n) P nodes = .ok w :=
-  limits_monotone L _ (le_unlimited L d n hd hn) P nodes w h
+  limits_monotone L _ (le_unlimited L d n hd hn) P hlax nodes w h
 
 /-- errors that are not resource-limit errors are untouched by the limits -/
-theorem other_errors_unchanged (L L' : Limits) (hle : LimLe L L') (P : Prog) (nodes : List Node) (e : Err)
-    (h : renderTemplate L P nodes = .error e) (hne : e.isLimit = false) : renderTemplate L' P nodes = .error e := by
-  rcases agree_template hle P nodes with h' | ⟨e', he, ht⟩
+theorem other_errors_unchanged (L L' : Limits) (hle : LimLe L L') (P : Prog) (hlax : P.lax = false) (nodes : List Node)
+    (e : Err) (w : W) (h : renderTemplate L P nodes = .error (e, w)) (hne : e.isLimit = false) :
+    renderTemplate L' P nodes = .error (e, w) := by
+  rcases agree_template hle P hlax nodes with h' | ⟨e', w', he, ht⟩
   · rw [← h']; exact h
   · rw [h] at he; cases he; have := ht.isLimit; simp_all
 
 /-! ### Monotonicity limit by limit, in the plain order of the numbers -/
 
-theorem limits_monotone_output (L : Limits) (P : Prog) (nodes : List Node) (l l' : Nat) (w : W) (hll : l ≤ l')
+theorem limits_monotone_output (L : Limits) (P : Prog) (hlax : P.lax = false) (nodes : List Node) (l l' : Nat) (w : W) (hll : l ≤ l')
     (h : renderTemplate { L with output := some l } P nodes = .ok w) :
     renderTemplate { L with output := some l' } P nodes = .ok w :=
   limits_monotone { L with output := some l } { L with output := some l' }
-    ⟨by simp [OLe, hll], OLe.refl _, OLe.refl _, Nat.le_refl _, Nat.le_refl _⟩ P nodes w h
+    ⟨by simp [OLe, hll], OLe.refl _, OLe.refl _, Nat.le_refl _, Nat.le_refl _⟩ P hlax nodes w h
 
-theorem limits_monotone_depth (L : Limits) (P : Prog) (nodes : List Node) (d d' : Nat) (w : W) (hdd : d ≤ d')
+theorem limits_monotone_depth (L : Limits) (P : Prog) (hlax : P.lax = false) (nodes : List Node) (d d' : Nat) (w : W) (hdd : d ≤ d')
     (h : renderTemplate { L with depth := d } P nodes = .ok w) :
     renderTemplate { L with depth := d' } P nodes = .ok w :=
   limits_monotone { L with depth := d } { L with depth := d' }
-    ⟨OLe.refl _, OLe.refl _, OLe.refl _, hdd, Nat.le_refl _⟩ P nodes w h
+    ⟨OLe.refl _, OLe.refl _, OLe.refl _, hdd, Nat.le_refl _⟩ P hlax nodes w h
 
-theorem limits_monotone_nesting (L : Limits) (P : Prog) (nodes : List Node) (n n' : Nat) (w : W) (hnn : n ≤ n')
+theorem limits_monotone_nesting (L : Limits) (P : Prog) (hlax : P.lax = false) (nodes : List Node) (n n' : Nat) (w : W) (hnn : n ≤ n')
     (h : renderTemplate { L with nesting := n } P nodes = .ok w) :
     renderTemplate { L with nesting := n' } P nodes = .ok w :=
   limits_monotone { L with nesting := n } { L with nesting := n' }
-    ⟨OLe.refl _, OLe.refl _, OLe.refl _, Nat.le_refl _, hnn⟩ P nodes w h
+    ⟨OLe.refl _, OLe.refl _, OLe.refl _, Nat.le_refl _, hnn⟩ P hlax nodes w h
 
 theorem ole_eff {l l' : Nat} (hl : l ≠ 0) (hll : l ≤ l') : OLe (eff (some l)) (eff (some l')) := by
   rcases l with _ | l
@@ -94,47 +97,68 @@ theorem ole_eff {l l' : Nat} (hl : l ≠ 0) (hll : l ≤ l') : OLe (eff (some l)
     · simpa [eff, OLe] using hll
 
 /-- `local_namespace_limit`: monotone from every limit the code treats as one (`l ≠ 0`) -/
-theorem limits_monotone_ns_partial (L : Limits) (P : Prog) (nodes : List Node) (l l' : Nat) (w : W)
+theorem limits_monotone_ns_partial (L : Limits) (P : Prog) (hlax : P.lax = false) (nodes : List Node) (l l' : Nat) (w : W)
     (hl : l ≠ 0) (hll : l ≤ l') (h : renderTemplate { L with ns := some l } P nodes = .ok w) :
     renderTemplate { L with ns := some l' } P nodes = .ok w :=
   limits_monotone { L with ns := some l } { L with ns := some l' }
-    ⟨OLe.refl _, ole_eff hl hll, OLe.refl _, Nat.le_refl _, Nat.le_refl _⟩ P nodes w h
+    ⟨OLe.refl _, ole_eff hl hll, OLe.refl _, Nat.le_refl _, Nat.le_refl _⟩ P hlax nodes w h
 
 /-- `loop_iteration_limit`: monotone from every limit the code treats as one (`l ≠ 0`) -/
-theorem limits_monotone_loop_partial (L : Limits) (P : Prog) (nodes : List Node) (l l' : Nat) (w : W)
+theorem limits_monotone_loop_partial (L : Limits) (P : Prog) (hlax : P.lax = false) (nodes : List Node) (l l' : Nat) (w : W)
     (hl : l ≠ 0) (hll : l ≤ l') (h : renderTemplate { L with loop := some l } P nodes = .ok w) :
     renderTemplate { L with loop := some l' } P nodes = .ok w :=
   limits_monotone { L with loop := some l } { L with loop := some l' }
-    ⟨OLe.refl _, OLe.refl _, ole_eff hl hll, Nat.le_refl _, Nat.le_refl _⟩ P nodes w h
+    ⟨OLe.refl _, OLe.refl _, ole_eff hl hll, Nat.le_refl _, Nat.le_refl _⟩ P hlax nodes w h
 
 /-- **Monotonicity fails at `local_namespace_limit = 0`**: `{% assign a = 'x' %}` succeeds under 0 (the test
 `if limit and …` makes 0 mean "no limit") and fails under the larger value 1. -/
 theorem limits_monotone_ns_counterexample :
-    ¬ (∀ (L : Limits) (P : Prog) (nodes : List Node) (l l' : Nat) (w : W), l ≤ l' →
+    ¬ (∀ (L : Limits) (P : Prog) (nodes : List Node) (l l' : Nat) (w : W), P.lax = false → l ≤ l' →
         renderTemplate { L with ns := some l } P nodes = .ok w →
         renderTemplate { L with ns := some l' } P nodes = .ok w) := by
   intro hall
-  have := hall ⟨none, none, none, 30, 30⟩ ⟨[], [], pySizeof⟩ [.assign "a" (.lit (.sc (.str [120])))] 0 1
-    ⟨[("a", .sc (.str [120]))], [], [], ⟨0, []⟩, [42]⟩ (by omega)
-    (by simp [renderTemplate, renderList, render, guardE, bindR, assignW, nsOver, eval, setA, sizeOfLocals, sumSz,
-          pySizeof, strSize, maxCp, nestList, nestNode])
-  simp [renderTemplate, renderList, render, guardE, bindR, assignW, nsOver, eval, setA, sizeOfLocals, sumSz,
+  have := hall ⟨none, none, none, 30, 30⟩ ⟨[], [], pySizeof, pyFilt, false⟩ [.assign "a" (.lit (.sc (.str [120])))] 0 1
+    ⟨[("a", .sc (.str [120]))], [], [], ⟨0, []⟩, [42], []⟩ rfl (by omega)
+    (by simp [renderTemplate, renderTop, catchR, initW, render, guardE, bindR, assignW, nsOver, eval, setA, sizeOfLocals,
+          sumSz, pySizeof, strSize, maxCp, nestList, nestNode])
+  simp [renderTemplate, renderTop, catchR, initW, render, guardE, bindR, assignW, nsOver, eval, setA, sizeOfLocals, sumSz,
     pySizeof, strSize, maxCp, nestList, nestNode] at this
 
 /-- **Monotonicity fails at `loop_iteration_limit = 0`**: `{% for v in (1..2) %}x{% endfor %}` succeeds under 0 and
 fails under 1. -/
 theorem limits_monotone_loop_counterexample :
-    ¬ (∀ (L : Limits) (P : Prog) (nodes : List Node) (l l' : Nat) (w : W), l ≤ l' →
+    ¬ (∀ (L : Limits) (P : Prog) (nodes : List Node) (l l' : Nat) (w : W), P.lax = false → l ≤ l' →
         renderTemplate { L with loop := some l } P nodes = .ok w →
         renderTemplate { L with loop := some l' } P nodes = .ok w) := by
   intro hall
-  have := hall ⟨none, none, none, 30, 30⟩ ⟨[], [], pySizeof⟩
+  have := hall ⟨none, none, none, 30, 30⟩ ⟨[], [], pySizeof, pyFilt, false⟩
     [.forn "v" (.lit (.list [.int 1, .int 2])) [.text [120]] []] 0 1
-    ⟨[], [], [], ⟨2, [120, 120]⟩, []⟩ (by omega)
-    (by simp [renderTemplate, renderList, render, renderBlock, iter, guardE, bindR, loopOver, eval, toIter, nestList,
-          nestNode, blankList, blankNode, blankText, isSpaceCp, writeW, write, utf8Len, cpLen])
-  simp [renderTemplate, renderList, render, renderBlock, iter, guardE, bindR, loopOver, reduceMul, eval, toIter, nestList,
-    nestNode, blankList, blankNode, blankText, isSpaceCp, writeW, write, utf8Len, cpLen] at this
+    ⟨[], [], [], ⟨2, [120, 120]⟩, [], []⟩ rfl (by omega)
+    (by simp [renderTemplate, renderTop, catchR, initW, renderList, render, renderBlock, iter, cellOpen, cellClose, guardE,
+          bindR, loopOver, eval, toIter, nestList, nestNode, blankList, blankNode, blankText, isSpaceCp, writeW, write,
+          utf8Len, cpLen])
+  simp [renderTemplate, renderTop, catchR, initW, renderList, render, renderBlock, iter, cellOpen, cellClose, guardE, bindR,
+    loopOver, reduceMul, eval, toIter, nestList, nestNode, blankList, blankNode, blankText, isSpaceCp, writeW, write,
+    utf8Len, cpLen] at this
+
+/-! ### LAX / WARN mode: the property does not hold there (recorded, with what does hold in `Props/C07.lean`)
+
+`Environment.error` drops the `OutputStreamLimitError` of each failing node and the render loop goes on: the output is
+silently shortened. -/
+
+/-- **Sentence 1 fails in LAX mode**: `{{ 'ab' }}c` renders `abc` without a limit and the empty string under
+`output_stream_limit = 1` — no error, a different output (the failed write of `ab` has already pushed the byte count
+past the limit, so `c` does not fit either). -/
+theorem lax_limit_alters_output_counterexample :
+    ¬ (∀ (L L' : Limits) (P : Prog) (nodes : List Node), LimLe L L' →
+        (renderTemplate L P nodes = renderTemplate L' P nodes ∨
+          ∃ e w, renderTemplate L P nodes = .error (e, w) ∧ e.isLimit = true)) := by
+  intro hall
+  have := hall ⟨some 1, none, none, 30, 30⟩ ⟨none, none, none, 30, 30⟩ ⟨[], [], pySizeof, pyFilt, true⟩
+    [.output (.lit (.sc (.str [97, 98]))), .text [99]]
+    ⟨by simp [OLe], OLe.refl _, OLe.refl _, Nat.le_refl _, Nat.le_refl _⟩
+  simp [renderTemplate, renderTop, catchR, initW, render, guardE, bindR, eval, toStr, writeW, write, utf8Len, cpLen,
+    nestList, nestNode] at this
 
 /-! ### The limit errors are resource-limit errors (generated class table) -/
 
@@ -157,11 +181,12 @@ theorem every_limit_check_raises_a_ResourceLimitError :
     ∀ s ∈ Gen.C08.limitChecks, derives Gen.C08.excBases 8 s.2.2.1 "ResourceLimitError" = true := by decide
 
 /-- what `modelChecks` says about 0, proved of the model's tests: 0 is falsy for the namespace and loop limits … -/
-theorem zero_is_no_limit (c : Cx) (n : Nat) : nsOver (some 0) n = false ∧ loopOver (some 0) c n = false := by
+theorem zero_is_no_limit (c : Cx) (w : W) (n : Nat) : nsOver (some 0) n = false ∧ loopOver (some 0) c w n = false := by
   simp [nsOver, loopOver]
 
 /-- … and a real limit for the output stream (any non-empty write fails) -/
-theorem output_zero_is_a_limit (b : Buf) (s : Text) (hs : s ≠ []) : write (.real (some 0)) b s = .error .outputLimit := by
+theorem output_zero_is_a_limit (b : Buf) (s : Text) (hs : s ≠ []) :
+    write (.real (some 0)) b s = .error ⟨b.size + utf8Len s, b.text⟩ := by
   have : 0 < utf8Len s := by
     cases s with
     | nil => exact absurd rfl hs
@@ -172,30 +197,30 @@ theorem output_zero_is_a_limit (b : Buf) (s : Text) (hs : s ≠ []) : write (.re
 /-! ## Non-vacuity -/
 
 /-- a render that completes under `output_stream_limit = 3` (hypothesis of `limits_monotone`) … -/
-example : outcome (renderTemplate ⟨some 3, some 100, some 5, 5, 1⟩ ⟨[], [], pySizeof⟩
+example : outcome (renderTemplate ⟨some 3, some 100, some 5, 5, 1⟩ ⟨[], [], pySizeof, pyFilt, false⟩
     [.capture "c" [.text [0x20AC]], .output (.var "c")]) = .ok [0x20AC] := by
-  simp [outcome, renderTemplate, renderList, render, renderBlock, guardE, bindR, assignW, nsOver, eval, evalVar, lookupPushed,
+  simp [outcome, renderTemplate, renderTop, catchR, initW, mapErr, renderList, render, renderBlock, guardE, bindR, assignW, nsOver, eval, evalVar, lookupPushed,
     lookupA, setA, sizeOfLocals, sumSz, nestList, nestNode, blankList, blankNode, blankText, isSpaceCp, subKind, writeW,
     write, utf8Len, cpLen, toStr, pySizeof, strSize, maxCp]
 
 /-- … and the same template is aborted by each of four limits with that limit's own error -/
-example : outcome (renderTemplate ⟨some 2, some 100, some 5, 5, 1⟩ ⟨[], [], pySizeof⟩
+example : outcome (renderTemplate ⟨some 2, some 100, some 5, 5, 1⟩ ⟨[], [], pySizeof, pyFilt, false⟩
     [.capture "c" [.text [0x20AC]], .output (.var "c")]) = .error .outputLimit := by
-  simp [outcome, renderTemplate, renderList, render, renderBlock, guardE, bindR, assignW, nsOver, eval, evalVar, lookupPushed,
+  simp [outcome, renderTemplate, renderTop, catchR, initW, mapErr, renderList, render, renderBlock, guardE, bindR, assignW, nsOver, eval, evalVar, lookupPushed,
     lookupA, setA, sizeOfLocals, sumSz, nestList, nestNode, blankList, blankNode, blankText, isSpaceCp, subKind, writeW,
     write, utf8Len, cpLen, toStr, pySizeof, strSize, maxCp]
 
-example : outcome (renderTemplate ⟨some 3, some 59, some 5, 5, 1⟩ ⟨[], [], pySizeof⟩
+example : outcome (renderTemplate ⟨some 3, some 59, some 5, 5, 1⟩ ⟨[], [], pySizeof, pyFilt, false⟩
     [.capture "c" [.text [0x20AC]], .output (.var "c")]) = .error .nsLimit := by
-  simp [outcome, renderTemplate, renderList, render, renderBlock, guardE, bindR, assignW, nsOver, eval, evalVar, lookupPushed,
+  simp [outcome, renderTemplate, renderTop, catchR, initW, mapErr, renderList, render, renderBlock, guardE, bindR, assignW, nsOver, eval, evalVar, lookupPushed,
     lookupA, setA, sizeOfLocals, sumSz, nestList, nestNode, blankList, blankNode, blankText, isSpaceCp, subKind, writeW,
     write, utf8Len, cpLen, toStr, pySizeof, strSize, maxCp]
 
-example : outcome (renderTemplate ⟨some 3, some 100, some 5, 3, 1⟩ ⟨[], [], pySizeof⟩
+example : outcome (renderTemplate ⟨some 3, some 100, some 5, 3, 1⟩ ⟨[], [], pySizeof, pyFilt, false⟩
     [.capture "c" [.text [0x20AC]], .output (.var "c")]) = .error .contextDepth := by
   simp [outcome, renderTemplate, guardE, nestList, nestNode]
 
-example : outcome (renderTemplate ⟨some 3, some 100, some 5, 5, 0⟩ ⟨[], [], pySizeof⟩
+example : outcome (renderTemplate ⟨some 3, some 100, some 5, 5, 0⟩ ⟨[], [], pySizeof, pyFilt, false⟩
     [.capture "c" [.text [0x20AC]], .output (.var "c")]) = .error .blockNesting := by
   simp [outcome, renderTemplate, guardE, nestList, nestNode]
 
